@@ -91,16 +91,18 @@ DumpOK(r, o, vers, ver, dport, uaddr, n) ==
 
 (* the parts of the reply relation that only need the first word of the call: framing, *)
 (* correlation, accepted reply with a null verifier, XDR alignment                     *)
-RpcReplyShellFails(p, o, r, ro) ==
+RpcReplyShellFailsX(p, o, r, ro, chkxid) ==
     IF Len(r) < ro + 24 \/ Len(p) < o + 4 THEN { "rpc-reply-header" }
     ELSE
     (IF ro = 4
      THEN (IF RmLast(r) /\ RmLen(r) = P32(Len(r) - 4) THEN {} ELSE { "rpc-record-mark" })
      ELSE {})
-    \cup (IF RU32(r, ro) = RU32(p, o) THEN {} ELSE { "rpc-xid" })
+    \cup (IF ~chkxid \/ RU32(r, ro) = RU32(p, o) THEN {} ELSE { "rpc-xid" })
     \cup (IF RU32(r, ro + 4) = << 0, 1 >> /\ RU32(r, ro + 8) = << 0, 0 >> THEN {} ELSE { "rpc-accepted-reply" })
     \cup (IF RU32(r, ro + 12) = << 0, 0 >> /\ RU32(r, ro + 16) = << 0, 0 >> THEN {} ELSE { "rpc-null-verifier" })
     \cup (IF (Len(r) - ro) % 4 = 0 THEN {} ELSE { "rpc-xdr-alignment" })
+
+RpcReplyShellFails(p, o, r, ro) == RpcReplyShellFailsX(p, o, r, ro, TRUE)
 
 (* p: request, o: its RPC offset; r: reply, ro: its RPC offset (4 on TCP); *)
 (* uaddr: universal address of the contacted endpoint as text bytes        *)
